@@ -755,8 +755,8 @@ def gen_cases(ck):
             c = json.load(open(os.path.join(cdir, fn)))
             c["kind"] = "corpus"
             cases.append(c)
-    plan = [("fan", 20 if quick else 300), ("poly", 30 if quick else 100), ("closed", 110 if quick else 3000), ("refined", 20 if quick else 300),
-            ("antimeridian", 30 if quick else 600), ("partial", 80 if quick else 2400)]
+    plan = [("fan", 20 if quick else 300), ("poly", 30 if quick else 100), ("closed", 110 if quick else 2400), ("refined", 20 if quick else 300),
+            ("antimeridian", 30 if quick else 600), ("partial", 80 if quick else 1900)]
     for kind, n in plan:
         for _ in range(n):
             cases.append(gen_case(rng, ck.tier, kind))
